@@ -22,7 +22,9 @@ TRUSTED = [
     "harness/vsim.py virtual-time loop in place of asyncio's selector loop and sockets (timers fire at their due millisecond)",
     "the lookup's view of the instance is the block input (cache key objects, question history): how the record manager, "
     "cache and history get there is C05/C06/C13",
-    "not modelled: IPv6 scope ids, zc not yet started (async_wait_for_start is outside the timeout), the sync wrapper "
+    "IPv6 scope ids: scenarios received on an IPv6 socket use one scope id for all link-local AAAA records (an address object is then determined "
+    "by its packed bytes, which is what the model keeps); two scopes of one link-local address in one lookup are not generated",
+    "not modelled: zc not yet started (async_wait_for_start is outside the timeout), the sync wrapper "
     "ServiceInfo.request (run_coro_with_timeout)",
     "a query whose known answers do not fit one packet goes out as a TC train: the block's datagrams are read as one query (questions and "
     "known answers merged); the TC bits, sizes and per-packet contents are C13's clause / C14's model",
@@ -61,7 +63,8 @@ def mk_record(spec, created=None):
     if kind == "a":
         return d.DNSAddress(spec["name"], k._TYPE_A, cls, spec["ttl"], bytes.fromhex(spec["addr"]), **kw)
     if kind == "aaaa":
-        return d.DNSAddress(spec["name"], k._TYPE_AAAA, cls, spec["ttl"], bytes.fromhex(spec["addr"]), **kw)
+        # `scope`: the record was received on an IPv6 socket (the 4-tuple source address carries the interface's scope id)
+        return d.DNSAddress(spec["name"], k._TYPE_AAAA, cls, spec["ttl"], bytes.fromhex(spec["addr"]), scope_id=spec.get("scope"), **kw)
     if kind == "ptr":
         return d.DNSPointer(spec["name"], k._TYPE_PTR, cls, spec["ttl"], spec["alias"], **kw)
     raise ValueError(kind)
@@ -172,7 +175,11 @@ def run_scenario(sc):
                 for spec in ev.get("known", []):
                     out.add_answer_at_time(mk_record(spec), 0)
             for p in out.packets():
-                host.inject(p, "10.0.0.9", 5353)
+                if sc.get("v6scope"):
+                    # received on an IPv6 socket: (address, port, flow, scope id); link-local AAAA records then carry the scope id
+                    host.deliver(bytes(p), ("fe80::9", 5353, 0, sc["v6scope"]))
+                else:
+                    host.inject(p, "10.0.0.9", 5353)
 
         rsp = sc.get("responder")
         if rsp:
@@ -215,7 +222,10 @@ def run_scenario(sc):
                     for r in recs:
                         out.add_answer_at_time(r, 0)
                     for pkt in out.packets():
-                        sim.loop.call_later(rsp["delay"] / 1000.0, host.inject, pkt, "10.0.0.7", 5353)
+                        if sc.get("v6scope"):
+                            sim.loop.call_later(rsp["delay"] / 1000.0, host.deliver, bytes(pkt), ("fe80::7", 5353, 0, sc["v6scope"]))
+                        else:
+                            sim.loop.call_later(rsp["delay"] / 1000.0, host.inject, pkt, "10.0.0.7", 5353)
 
             sim.net.on_send = on_send
         pre_ev = sc.get("preevents", [])
@@ -530,8 +540,8 @@ def oracle(sc, obs):
                         lost = (r["addr"], b["now"] - obs["t0"])
     if lost is not None:
         out.append(("C18:address-before-srv-lost", "address %s of the service's host was delivered to the lookup %d ms after its start, unexpired, "
-                    "yet it returned False at %d ms without any address (the address record preceded the SRV record in its datagram: it was "
-                    "dropped while the host was unknown, and the SRV branch re-read a cache that did not hold it yet)"
+                    "yet it returned False at %d ms without any address (D22's mechanism -- the address record preceded the SRV record in its datagram, was "
+                    "dropped while the host was unknown, and the SRV branch re-read a cache that did not hold it yet -- or the record was refused for another reason)"
                     % (lost[0], lost[1], obs["t_ret"] - obs["t0"])))
     # --- with a responder that answers every question, the questions the lookup must ask lead to success
     elif sc.get("liveness") and obs["result"] is not True:
@@ -689,7 +699,19 @@ def gen_scenario(rng, idx):
             sc.setdefault("preevents", []).append({"before": rng.choice([9500, 8000, 6000, 4000, 2500, 1500, 999, 500, 1]), "kind": "resp", "recs": recs})
     if rng.random() < 0.15:
         sc["prehist"].append({"name": rng.choice([NAME, host]), "type": rng.choice([33, 16, 1, 28]), "age": rng.choice([0, 1, 500, 998, 999, 1000]), "known": []})
+    v6_scope(rng, sc)
     return sc
+
+
+def v6_scope(rng, sc):
+    """15 % of the scenarios are received on an IPv6 socket: datagrams come from a 4-tuple source with a scope id, and every link-local
+    AAAA record -- cached before (it was received the same way) or arriving -- carries that one scope id, so that an address object
+    is still determined by its packed bytes (the model's view)"""
+    if rng.random() < 0.15:
+        sc["v6scope"] = rng.choice([1, 3, 12])
+        for spec in sc["pre"]:
+            if spec["k"] == "aaaa":
+                spec["scope"] = sc["v6scope"]
 
 
 def gen_responder_scenario(rng, idx):
@@ -741,6 +763,7 @@ def gen_responder_scenario(rng, idx):
             ttl = rng.choice([120, 10])
             sc["pre"].append({"k": "aaaa", "name": spell(host), "ttl": ttl, "addr": a, "unique": True, "age": age_state(ttl, ["fresh", "stale", "expired", "expired"])})
     rng.shuffle(sc["pre"])
+    v6_scope(rng, sc)
     return sc
 
 
